@@ -197,10 +197,20 @@ def peer_churn(tier, seed):
     rounds = 30 if tier == "quick" else 400
     p = c.run_harness(rig, {"VERIF_OP": "churn", "VERIF_OUT": os.path.join(d, "o.json"), "VERIF_DB": os.path.join(d, "c.db"), "VERIF_ROUNDS": rounds,
                             "VERIF_SEED": seed, "GORACE": "halt_on_error=0", "TMPDIR": d}, cwd=d, timeout=3000)
-    if not os.path.exists(os.path.join(d, "o.json")):
-        raise c.Infra("churn run failed: %s" % p.stderr[-2000:])
     sites = [x for f in c.findings_for("C15") for x in f.get("sites", [])]
     explained, unexplained = 0, []
+    if not os.path.exists(os.path.join(d, "o.json")):
+        # the process died: with the listed race the Go runtime itself may abort it ("concurrent map iteration and map write")
+        i = max(p.stderr.find("fatal error:"), p.stderr.find("panic:"))
+        if i < 0:
+            raise c.Infra("churn run failed: %s" % p.stderr[-2000:])
+        crash = p.stderr[i:i + 6000]
+        if "concurrent map" in crash and any(sx in crash for sx in sites):
+            explained += 1
+        else:
+            unexplained.append({"pair": "the process crashed: " + crash.splitlines()[0][:200], "text": crash})
+        with open(os.path.join(d, "o.json"), "w") as f:
+            json.dump({"rounds": rounds, "crashed": True}, f)
     for b in p.stderr.split("WARNING: DATA RACE")[1:]:
         b = b.split("==================")[0]
         if any(sx in b for sx in sites):
@@ -279,6 +289,12 @@ def c15(tier, seed, replay_path=None):
                            "VERIF_SCENARIOS": 150 if tier == "quick" else 3000, "VERIF_FREE": "1", "GORACE": "halt_on_error=0"}, cwd=rd, timeout=3000)
     c.log("  race build+run: %.1fs" % (_t.time() - _t0))
     races = p.stderr.count("WARNING: DATA RACE")
+    try:
+        rstats = json.load(open(os.path.join(rd, "r.ndjson.stats")))
+    except Exception:
+        rstats = {}
+    if not races and p.returncode == 0 and rstats.get("webhook-posts", 0) == 0:
+        raise c.Infra("vacuous race run: no webhook delivery happened: %s" % rstats)
     if races:
         i = p.stderr.index("WARNING: DATA RACE")
         viol.append(("race detector: %d data race report(s) in free-running concurrent ingestion/reads" % races,
@@ -300,7 +316,7 @@ def c15(tier, seed, replay_path=None):
            "traces_validated_against_impl": stats.get("scenarios", 0) + (150 if tier == "quick" else 3000),
            "recorded_events_validated": events, "scheduler_stats": stats, "samples": samples,
            "model_sensitivity": "ChainSteps with AddMutex=FALSE violates LValid (TLC counter-example found, %d states)" % r0.distinct,
-           "race_detector_reports": races,
+           "race_detector_reports": races, "race_run_webhook_deliveries": rstats.get("webhook-posts", 0),
            "rule": "2-3 submitter goroutines (competing children of the tip, forks, children of headers another goroutine is adding) and 1-2 reader goroutines over the real SQL "
                    "stack; repository calls are granted one at a time in a seeded random order by the harness scheduler; every snapshot after a write and at every read, and the "
                    "final store, are validated by TLC against Trace_Conc.tla (StructValid snapshots, reader tip = top, final = Chain.AddRow folded in SOME order)"}
